@@ -25,7 +25,8 @@ type Storm struct {
 	PerPub   int   `json:"per_pub"`
 	Churn    int   `json:"churn_clients"`
 	Rounds   int   `json:"churn_rounds"`
-	Sweeps   bool  `json:"late_sweeps"` // also sweep with now = far future (forces retransmissions)
+	Sweeps   bool  `json:"late_sweeps"`        // also sweep with now = far future (forces retransmissions)
+	RealLog  bool  `json:"real_log,omitempty"` // the commit log on disk instead of the in-memory log
 	FullSync bool  `json:"full_sync"`
 }
 
@@ -42,7 +43,7 @@ func runStorm(c Storm) *failure {
 	defer cl.Close()
 	cl.SettleBudget = 60 * time.Second
 	for i := 0; i < c.Nodes; i++ {
-		if _, err := cl.AddNode(sim.NodeOpts{MemLog: true}); err != nil {
+		if _, err := cl.AddNode(sim.NodeOpts{MemLog: !c.RealLog}); err != nil {
 			return &failure{err.Error(), true}
 		}
 	}
@@ -288,6 +289,7 @@ func TestStorm(t *testing.T) {
 	rapid.Check(t, func(t *rapid.T) {
 		c := Storm{Nodes: rapid.IntRange(1, 2).Draw(t, "nodes"), Pubs: rapid.IntRange(1, 4).Draw(t, "pubs"), PerPub: rapid.IntRange(3, 40).Draw(t, "perPub"),
 			Churn: rapid.IntRange(0, 3).Draw(t, "churn"), Rounds: rapid.IntRange(1, 4).Draw(t, "rounds"), Sweeps: rapid.Bool().Draw(t, "sweeps"), FullSync: rapid.Bool().Draw(t, "fullsync")}
+		c.RealLog = rapid.IntRange(0, 3).Draw(t, "realLog") == 0
 		ns := rapid.IntRange(1, 4).Draw(t, "subs")
 		for i := 0; i < ns; i++ {
 			c.SubQoS = append(c.SubQoS, rapid.IntRange(0, 2).Draw(t, "subqos"))
